@@ -370,14 +370,25 @@ def run_twin_case(driver, seed, i, res):
             except Exception as e:
                 got[which][k] = ("exc", e)
 
+    seen = {0: [], 1: []}
+
     async def main(sim):
         await sim.connect()
+        if hasattr(sim.driver, "bus_traffic"):
+            # a subscriber of one instance hears that instance only
+            sim.driver.bus_traffic.register(lambda d, c, rsp, e: seen[0].append(d))
+            sim.driver2.bus_traffic.register(lambda d, c, rsp, e: seen[1].append(d))
         await asyncio.gather(caller(0, sim.driver), caller(1, sim.driver2))
         await asyncio.sleep(0.5)
         return True
     out, stalled = sim.run(main)
     res.evaluations += 1
     res.hit("twin_runs")
+    for which, drv in ((0, sim.driver), (1, sim.driver2)):
+        if any(d is not drv for d in seen[which]):
+            res.violation(f"C16/{driver}/twin/foreign-report", f"a bus_traffic subscriber of instance {which} was called with reports of the "
+                          f"other instance ({sum(1 for d in seen[which] if d is not drv)} of {len(seen[which])})",
+                          {"driver": driver, "seed": seed, "case": i, "twin": True})
     wit = {"driver": driver, "seed": seed, "case": i, "twin": True, "commands": [str(c) for c in cmds], "picks": picker.log[:30]}
     try:
         if simlib.detached(out):
